@@ -98,6 +98,7 @@ pub fn replay(f: &Failure) -> i32 {
         "c18-0rtt" => crate::core::replay_case(f, c18::case_0rtt),
         "c19" | "c19-enum" => crate::core::replay_case(f, c19::case),
         "c19-fallback" => crate::core::replay_case(f, c19::case_degraded),
+        "c19-foreign" => crate::core::replay_case(f, c19::case_foreign),
         "c20" => crate::core::replay_case(f, c20::case),
         other => {
             eprintln!("no replay handler for check {other}");
